@@ -37,7 +37,8 @@ def gen(draw):
         names += ["u1", "u2"][:draw(st.integers(1, 2))]
     if layout == "trio+unrelated":
         names += ["u1"]
-    c = P.gen_case(draw, sample_names=names, ncontigs=(2, 3), length=(300, 600), depth=(1, 5), read_len=(50, 220), paired_share=10,
+    distrust = draw(st.integers(0, 2)) == 0
+    c = P.gen_case(draw, sample_names=names, ncontigs=(2, 3), length=(300, 600), depth=(4, 10) if distrust else (1, 5), read_len=(50, 220), paired_share=10,
                    clip_share=0, eqx_share=0, mingap=30, maxgap=80, kinds=("snv", "snv", "snv", "ins", "del"))
     for fa, mo, ch in trios:
         for contig in c["contigs"]:
@@ -56,7 +57,6 @@ def gen(draw):
                 chh[0][vi] = f[a][vi]
                 chh[1][vi] = m[mh][vi]
             c["haps"][ch][name] = chh
-    distrust = draw(st.integers(0, 2)) == 0
     gts = {s: {contig["name"]: [G.gt_of(c["haps"][s][contig["name"]], vi) for vi in range(len(c["variants"][contig["name"]]))]
                for contig in c["contigs"]} for s in names}
     if distrust:
@@ -67,8 +67,14 @@ def gen(draw):
             for contig in c["contigs"]:
                 name = contig["name"]
                 for vi in range(len(c["variants"][name])):
+                    if draw(st.integers(0, 2)) == 0:
+                        # make the sample truly homozygous here
+                        a = draw(st.integers(0, 1))
+                        for h in c["haps"][s][name]:
+                            h[vi] = a
+                        gts[s][name][vi] = G.gt_of(c["haps"][s][name], vi)
                     al = {h[vi] for h in c["haps"][s][name]}
-                    if len(al) == 1 and draw(st.integers(0, 2)) == 0:
+                    if len(al) == 1 and draw(st.integers(0, 2)) > 0:
                         gts[s][name][vi] = "0/1"
     c["gts"] = gts
     c["trios"] = trios
@@ -97,7 +103,7 @@ def vcf_gts(path):
 
 class ListsPart:
     name = "lists"
-    budget = {"quick": 480, "thorough": 8000}
+    budget = {"quick": 800, "thorough": 12000}
 
     def strategy(self, tier):
         @st.composite
